@@ -17,7 +17,7 @@ import (
 func Setup() {}
 
 func genOpts() hx.GenOpts {
-	o := hx.GenOpts{MaxEvents: 6, MaxDepth: 3, Attrs: 1, NS: 2, Other: true, TopLevel: true, Surplus: true}
+	o := hx.GenOpts{MaxEvents: 6, MaxDepth: 3, Attrs: 1, NS: 3, Other: true, TopLevel: true, Surplus: true}
 	if nd.Tier() > 0 {
 		o.MaxEvents, o.Attrs = 8, 2
 	}
